@@ -156,7 +156,12 @@ def v2_property(pid, tier, cfgs, cont, nontrivial, rule, level="model_checking",
             limit = quick_limit if tier == "quick" else thorough_limit
             sub, cfgp, paths, st = model_and_paths(v, sc, binary, cfg, limit, rnd)
             log("[%s] %s: model %d states, %d/%d cover paths" % (pid, cfg["name"], st["nodes"], st["paths"], st["paths_total"]))
-            rp = replay(binary, sub, cfgp, paths, cont)
+            rp = v.attempt("replay " + cfg["name"], replay, binary, sub, cfgp, paths, cont)
+            if rp is None:   # the replay driver died (e.g. a panic inside the code under test): judge what it had recorded so far
+                ef = os.path.join(sub, "replay_events.ndjson")
+                if os.path.exists(ef) and os.path.getsize(ef):
+                    files.append(ef)
+                continue
             log("[%s] %s: replayed %d paths, %d steps, %d diverged, %.1fs" % (pid, cfg["name"], rp["paths"], rp["steps"], rp["diverged"], rp["wall"]))
             for k in tot:
                 tot[k] += rp[k]
@@ -169,8 +174,9 @@ def v2_property(pid, tier, cfgs, cont, nontrivial, rule, level="model_checking",
             if rp["races"]:
                 v.notes.append("race detector reported %d race(s) during replay of %s (verdict of C20)" % (rp["races"], cfg["name"]))
         free_stats = None
-        if free:
-            fsub, free_stats = free_v2(sc, binary, tier)
+        fr = v.attempt("free-running v2", free_v2, sc, binary, tier) if free else None
+        if fr:
+            fsub, free_stats = fr
             files.append(os.path.join(fsub, "free_events.ndjson"))
             if free_stats["races"]:
                 v.notes.append("race detector reported %d race(s) in free-running runs (verdict of C20)" % free_stats["races"])
@@ -178,7 +184,9 @@ def v2_property(pid, tier, cfgs, cont, nontrivial, rule, level="model_checking",
             for c2 in v2rand_configs(tier):
                 if (c2.get("faults", 0) > 0) != (pid == "C15"):
                     continue
-                rec = record_v2rand(v, sc, binary, c2, 60 if tier == "quick" else 1500)
+                rec = v.attempt("v2 random " + c2["name"], record_v2rand, v, sc, binary, c2, 60 if tier == "quick" else 1500)
+                if rec is None:
+                    continue
                 log("[%s] v2 random %s: %d scheduler events, trace validation drift %d" % (pid, c2["name"], rec["sched_events"], rec["conf"]["drift"]))
                 files.append(rec["obs"])
                 v.cov.setdefault("conformance", {})[c2["name"]] = rec["conf"]
@@ -189,12 +197,14 @@ def v2_property(pid, tier, cfgs, cont, nontrivial, rule, level="model_checking",
             lap("v1 models done")
         for kind in v1kinds:
             for c1 in v1_configs(kind, tier):
-                rec = record_v1(binary, sc, c1, 150 if tier == "quick" else 3000)
+                rec = v.attempt("v1 " + c1["name"], record_v1, binary, sc, c1, 150 if tier == "quick" else 3000)
+                if rec is None:
+                    continue
                 log("[%s] v1 %s: recorded, %d scheduler events, %.1fs" % (pid, c1["name"], rec["sched_events"], rec["wall"]))
                 v1recs.append((c1, rec))
                 files.append(rec["obs"])
-                if rec["spin"] is None:
-                    conf = conformance_v1(v, sc, binary, c1, rec)
+                conf = v.attempt("trace validation " + c1["name"], conformance_v1, v, sc, binary, c1, rec) if rec["spin"] is None else None
+                if conf:
                     log("[%s] %s: trace validation: %d traces, %d drift" % (pid, c1["name"], conf["traces"], conf["drift"]))
                     v.cov.setdefault("conformance", {})[c1["name"]] = conf
                 if rec["spin"]:
@@ -202,7 +212,9 @@ def v2_property(pid, tier, cfgs, cont, nontrivial, rule, level="model_checking",
         lap("v1 records done")
         if simple:
             for c2 in simple_configs(tier):
-                rec = record_simple(binary, sc, c2, 120 if tier == "quick" else 3000)
+                rec = v.attempt("simple " + c2["name"], record_simple, binary, sc, c2, 120 if tier == "quick" else 3000)
+                if rec is None:
+                    continue
                 log("[%s] simple %s: recorded, %.1fs" % (pid, c2["name"], rec["wall"]))
                 files.append(rec["obs"])
         lap("monitor ...")
@@ -270,7 +282,7 @@ def v2_property(pid, tier, cfgs, cont, nontrivial, rule, level="model_checking",
         if traces:
             v.sample(dict(observed_trace=[(e["e"], e.get("p"), e.get("c"), e.get("k")) for e in trace_at(events, 1)][:50]))
         if extra:
-            extra(v, sc, binary)
+            v.attempt("extra part", extra, v, sc, binary)
         v.assumptions += ["Go 1.26.8 testing/synctest virtual clock and quiescence detection", "TLC", "the verif hooks report the scheduler's counters faithfully",
                           "bounded configurations; larger ones only by the randomized parts"]
     return v.finish()
